@@ -39,7 +39,8 @@ Theorem macro_meaning fuel name nsp args c nxs dsp params body :
    with_scope (macro_scope_name (next_macro_scope_id c)) None
      (bind_macro_args params values ;;; emit_tokens (emit_token fuel) body)) c.
 Proof.
-  intros Q F L. cbn [emit_token emit_token_body]. unfold bind at 1. unfold get at 1. rewrite Q, F, L, Nat.eqb_refl. reflexivity.
+  intros Q F L. cbn [emit_token emit_token_body]. unfold bind at 1. unfold get at 1.
+  unfold bind at 1. cbn [modify]. rewrite Q, F, L, Nat.eqb_refl. reflexivity.
 Qed.
 
 (* ------------------------------------------------------------------ .loop *)
